@@ -9,10 +9,42 @@ use crate::refmodel::ref_tags;
 use crate::util::*;
 use serde_json::{json, Value};
 
+// ---- breadcrumbs: when CV_BREADCRUMB_DIR is set every case is written (unbuffered) to a per-thread file
+// before it runs, so that the parent process can recover the input after an abort of this process -------------
+
+fn crumb_dir() -> &'static Option<String> {
+    static D: std::sync::OnceLock<Option<String>> = std::sync::OnceLock::new();
+    D.get_or_init(|| std::env::var("CV_BREADCRUMB_DIR").ok())
+}
+
+thread_local! {
+    static CRUMB: std::cell::RefCell<Option<std::fs::File>> = const { std::cell::RefCell::new(None) };
+}
+
+fn breadcrumb(c: &JunkCase) {
+    let Some(dir) = crumb_dir() else { return };
+    use std::os::unix::fs::FileExt;
+    static N: std::sync::atomic::AtomicUsize = std::sync::atomic::AtomicUsize::new(0);
+    CRUMB.with(|f| {
+        let mut f = f.borrow_mut();
+        if f.is_none() {
+            let k = N.fetch_add(1, std::sync::atomic::Ordering::SeqCst);
+            *f = std::fs::File::create(format!("{dir}/t{k}.json")).ok();
+        }
+        if let Some(file) = f.as_mut() {
+            if let Ok(bytes) = serde_json::to_vec(c) {
+                let _ = file.write_at(&bytes, 0);
+                let _ = file.set_len(bytes.len() as u64);
+            }
+        }
+    });
+}
+
 pub fn oracle(c: &JunkCase, obs: &mut Obs, counted: bool) -> Verdict {
     if c.cfg.ds.is_empty() || c.cfg.de.is_empty() {
         return Verdict::Pass;
     }
+    breadcrumb(c);
     let ctx = || format!("\n  src = {:?}\n  delimiters = {:?} / {:?}, offset = {:?}, targets = {:?}, now = {}", truncate(&c.src, 1500), c.cfg.ds, c.cfg.de, c.cfg.offset, c.cfg.targets, c.cfg.now);
     if let Err(p) = call_clean(&c.src, &c.cfg) {
         return Verdict::Fail(format!("clean panicked: {p}{}", ctx()));
@@ -88,6 +120,31 @@ fn all_opts() -> Opts {
     o
 }
 
+/// hostile layouts: many shared tag lines, straddling children, text glued to tags, multi-byte words
+fn hostile_opts() -> Opts {
+    let mut o = all_opts();
+    o.delims = vec![("<", ">"), ("<!-- <", "> -->"), ("「", "」"), ("|", "|"), ("[[", "]]")];
+    o.shared_pct = 55;
+    o.straddle_pct = 30;
+    o.adjacent_pct = 60;
+    o.multibyte_pct = 45;
+    o.unwrap_pct = 65;
+    o.max_top = 3;
+    o.odd_conditions = false;
+    o
+}
+
+fn gen_ast_case_with(t: &mut Tape, o: &Opts) -> JunkCase {
+    let (doc, sp) = astgen::gen_doc(t, o);
+    let mut acfg = astgen::gen_acfg(t);
+    if t.chance(70) {
+        acfg.now_idx = 4;
+        acfg.targets = 7;
+    }
+    let r = astgen::render(&doc, &sp);
+    JunkCase { src: r.src, cfg: acfg.to_cfg(&sp) }
+}
+
 fn gen_ast_case(t: &mut Tape) -> JunkCase {
     let o = all_opts();
     let (doc, sp) = astgen::gen_doc(t, &o);
@@ -153,6 +210,9 @@ pub fn check(ctx: &mut Ctx) {
     minimize_src_failure(ctx, "junk-soup");
     ctx.random("ast-documents", 400, 250_000, 3_000_000, gen_ast_case, |c, obs| oracle(c, obs, false));
     minimize_src_failure(ctx, "ast-documents");
+    let ho = hostile_opts();
+    ctx.random("hostile-layouts", 300, 400_000, 4_000_000, |t| gen_ast_case_with(t, &ho), |c, obs| oracle(c, obs, false));
+    minimize_src_failure(ctx, "hostile-layouts");
     let mo = all_opts();
     ctx.random("mutated-ast", 400, 150_000, 2_000_000, |t| junkgen::gen_mutated(t, &mo), |c, obs| oracle(c, obs, false));
     minimize_src_failure(ctx, "mutated-ast");
@@ -197,4 +257,81 @@ pub fn replay(_sub: &str, case: &Value, obs: &mut Obs) -> Result<Verdict, String
         obs.eval();
         oracle(c, obs, false)
     })
+}
+
+
+// ---- isolation of process aborts ---------------------------------------------------------------------------------
+
+fn single_aborts(exe: &std::path::Path, dir: &str, case: &JunkCase) -> Option<bool> {
+    let p = format!("{dir}/single.json");
+    std::fs::write(&p, serde_json::to_vec(case).ok()?).ok()?;
+    let st = std::process::Command::new(exe).args(["c01-single", &p]).stdout(std::process::Stdio::null()).stderr(std::process::Stdio::null()).status().ok()?;
+    Some(match st.code() {
+        Some(c) => c >= 128,
+        None => true,
+    })
+}
+
+/// The check process died abnormally: re-run it with breadcrumbs, find the case that kills a fresh
+/// process, minimise it and report it as a violation. Returns the exit code.
+pub fn isolate_abort(exe: &std::path::Path, tier: Tier, seed: u64) -> i32 {
+    let dir = format!("{VERIF_DIR}/.build/tmp/crumbs-{}", std::process::id());
+    let _ = std::fs::remove_dir_all(&dir);
+    if std::fs::create_dir_all(&dir).is_err() {
+        eprintln!("INCONCLUSIVE property=C01 : cannot create {dir}");
+        return 2;
+    }
+    eprintln!("C01: re-running with breadcrumbs to find the input that aborts the process …");
+    let st = std::process::Command::new(exe).args(["check-inner", "C01", tier.name()]).env("CV_BREADCRUMB_DIR", &dir).env("VERIF_SEED", seed.to_string()).stdout(std::process::Stdio::null()).stderr(std::process::Stdio::null()).status();
+    let died = match st {
+        Ok(s) => s.code().map(|c| c >= 128).unwrap_or(true),
+        Err(_) => false,
+    };
+    if !died {
+        eprintln!("INCONCLUSIVE property=C01 : the abnormal termination did not recur with breadcrumbs enabled");
+        let _ = std::fs::remove_dir_all(&dir);
+        return 2;
+    }
+    let mut cands: Vec<JunkCase> = vec![];
+    if let Ok(rd) = std::fs::read_dir(&dir) {
+        for e in rd.filter_map(|e| e.ok()) {
+            if let Ok(t) = std::fs::read_to_string(e.path()) {
+                if let Ok(c) = serde_json::from_str::<JunkCase>(&t) {
+                    cands.push(c);
+                }
+            }
+        }
+    }
+    cands.sort_by_key(|c| c.src.len());
+    let mut culprit = None;
+    for c in cands {
+        if single_aborts(exe, &dir, &c) == Some(true) {
+            culprit = Some(c);
+            break;
+        }
+    }
+    let Some(case) = culprit else {
+        eprintln!("INCONCLUSIVE property=C01 : the process dies, but none of the last cases of its threads kills a fresh process");
+        let _ = std::fs::remove_dir_all(&dir);
+        return 2;
+    };
+    // minimise with one child process per attempt
+    let cfg = case.cfg.clone();
+    let budget = std::cell::Cell::new(400u32);
+    let min = minimize_text(&case.src, |s| {
+        if budget.get() == 0 {
+            return false;
+        }
+        budget.set(budget.get() - 1);
+        single_aborts(exe, &dir, &JunkCase { src: s.to_string(), cfg: cfg.clone() }) == Some(true)
+    });
+    let mc = JunkCase { src: min, cfg };
+    let _ = std::fs::remove_dir_all(&dir);
+    let msg = format!("the process ABORTED (no panic that could be caught: stack overflow, abort or a fatal signal) while cleaning / listing\n  src = {:?}\n  delimiters = {:?} / {:?}, offset = {:?}, targets = {:?}", truncate(&mc.src, 1500), mc.cfg.ds, mc.cfg.de, mc.cfg.offset, mc.cfg.targets);
+    let mut ctx = Ctx::new("C01", tier, seed);
+    ctx.rule = "abort isolation: the check process died; the case below kills a fresh process".into();
+    ctx.stats.evaluations = 1;
+    ctx.stats.samples.push(serde_json::to_value(&mc).unwrap_or(Value::Null));
+    ctx.failure = Some(Failure { broken: false, sub: "process-abort".into(), case: serde_json::to_value(&mc).unwrap_or(Value::Null), tape: None, message: msg });
+    ctx.finish()
 }
